@@ -22,11 +22,45 @@ def viol(prop, ob, exs, detail, key, sample, n):
     return o
 
 
+def ed25519_tables():
+    """(names of statics/consts that are exactly `&[webpki::ring::ED25519]`, names of WebPkiSupportedAlgorithms tables built only from those
+    and mapping only SignatureScheme::ED25519) - by content, whatever the items are called"""
+    import glob
+    lists, tables = set(), set()
+    srcs = []
+    for f in glob.glob(os.path.join(REPO, 'crates/anemo/src', '**', '*.rs'), recursive=True):
+        try:
+            srcs.append(re.sub(r'//[^\n]*', '', open(f, errors='replace').read()))
+        except OSError:
+            pass
+    for src in srcs:
+        for m in re.finditer(r'\b(?:static|const)\s+(\w+)\s*:[^=;]*=\s*&\[(.*?)\]\s*;', src, re.S):
+            items = [x.strip() for x in m.group(2).split(',') if x.strip()]
+            if items == ['webpki::ring::ED25519']:
+                lists.add(m.group(1))
+    for src in srcs:
+        for m in re.finditer(r'\b(?:static|const)\s+(\w+)\s*:[^=;]*=\s*(?:\w+::)*WebPkiSupportedAlgorithms\s*\{(.*?)\}\s*;', src, re.S):
+            body = re.sub(r'\s+', '', m.group(2)).rstrip(',')
+            mm = re.fullmatch(r'all:(\w+),mapping:&\[\((?:rustls::)?SignatureScheme::ED25519,(\w+)\),?\]', body)
+            if mm and mm.group(1) in lists and mm.group(2) in lists:
+                tables.add(m.group(1))
+    return lists, tables
+
+
+def _static_name(v):
+    m = re.search(r'static (\w+):', vrepr(v) + ' ' + vname(v))
+    return m.group(1) if m else None
+
+
 def ob_signature_delegation(report, prop):
     """all six verify_tls1{2,3}_signature bodies return rustls::crypto::verify_tls1x_signature(own args, &SUPPORTED_ALGORITHMS)"""
     def body(ob):
         ex = e2.executor('anemo', [], max_depth=1)
-        fns = find_fns(ex.prog, r'^crypto::<impl>::verify_tls1[23]_signature$')
+        ED_LISTS, ED_TABLES = ed25519_tables()
+        if not ED_TABLES:
+            return viol(prop, ob, [ex], 'the crate declares no signature-algorithm table that names only Ed25519 (`WebPkiSupportedAlgorithms { all: [ED25519], mapping: [(ED25519, [ED25519])] }`)',
+                        'sig-algs-table', {}, 0)
+        fns = find_fns(ex.prog, r'(^|::)<impl>::verify_tls1[23]_signature$')
         if len(fns) != 6:
             return ob.done([ex], 'inconclusive', f'expected six handshake-signature verifier bodies, found {len(fns)}', paths=0)
         total = 0
@@ -48,20 +82,10 @@ def ob_signature_delegation(report, prop):
                 names = [vname(x) for x in a[:3]]
                 if names != ['&in_2.*' if False else names[0], names[1], names[2]] or not (names[0].startswith('&in_2') and names[1].startswith('&in_3') and names[2].startswith('&in_4')):
                     return viol(prop, ob, [ex], f'{who} verify_tls{ver}_signature passes {names} instead of its own (message, cert, dss)', f'sig-args-tls{ver}', path_summary(r), total)
-                if 'SUPPORTED_ALGORITHMS' not in vrepr(a[3]) and 'SUPPORTED_ALGORITHMS' not in vname(a[3]):
-                    return viol(prop, ob, [ex], f'{who} verify_tls{ver}_signature uses {vrepr(a[3])[:80]} instead of the Ed25519-only SUPPORTED_ALGORITHMS', f'sig-algs-tls{ver}', path_summary(r), total)
+                if _static_name(a[3]) not in ED_TABLES:
+                    return viol(prop, ob, [ex], f'{who} verify_tls{ver}_signature uses {vrepr(a[3])[:80]}, which is not a table naming only Ed25519 (known Ed25519-only tables: {sorted(ED_TABLES)})', f'sig-algs-tls{ver}', path_summary(r), total)
                 if vname(r.ret) != vname(dl[0].ret):
                     return viol(prop, ob, [ex], f'{who} verify_tls{ver}_signature does not return the delegate\'s verdict unchanged ({vrepr(r.ret)[:80]})', f'sig-result-tls{ver}', path_summary(r), total)
-        # the algorithm tables name only Ed25519
-        src = open(os.path.join(REPO, CR)).read()
-        m1 = re.search(r'static\s+SUPPORTED_SIG_ALGS\s*:[^=]*=\s*&\[(.*?)\];', src, re.S)
-        m2 = re.search(r'static\s+SUPPORTED_ALGORITHMS\s*:[^=]*=\s*WebPkiSupportedAlgorithms\s*\{(.*?)\};', src, re.S)
-        algs = [x.strip() for x in m1.group(1).split(',') if x.strip()] if m1 else None
-        if algs != ['webpki::ring::ED25519']:
-            return viol(prop, ob, [ex], f'SUPPORTED_SIG_ALGS = {algs}: not exactly [webpki::ring::ED25519]', 'sig-algs-table', {}, total)
-        if not m2 or re.sub(r'\s+', '', m2.group(1)) not in ('all:SUPPORTED_SIG_ALGS,mapping:&[(rustls::SignatureScheme::ED25519,SUPPORTED_SIG_ALGS)],',
-                                                              'all:SUPPORTED_SIG_ALGS,mapping:&[(rustls::SignatureScheme::ED25519,SUPPORTED_SIG_ALGS)]'):
-            return viol(prop, ob, [ex], 'SUPPORTED_ALGORITHMS maps something other than SignatureScheme::ED25519 -> SUPPORTED_SIG_ALGS', 'sig-algs-mapping', {}, total)
         ob.done([ex], 'held', '', {'verifier_bodies': 6, 'paths': total}, paths=total)
     return guarded(report, 'handshake_signature_delegated', 'all six verify_tls12/13_signature bodies (client verifier, server verifier, pinned server verifier) return '
                    'rustls::crypto::verify_tls1x_signature(message, cert, dss, &SUPPORTED_ALGORITHMS) on their own arguments; the tables name only Ed25519',
@@ -86,7 +110,7 @@ def ob_expected_verifier(report, prop):
             p.events.append(Event('delegate', 'CertVerifier::verify_server_cert', tuple(ex.deref(p, a) if isinstance(a, Ptr) else a for a in call.args)))
             k(p, Sym('delegate_result', 'Result<ServerCertVerified, rustls::Error>'))
         ex = e2.executor('anemo', [('role:peer_id_from_certificate', m_pid), (r'<CertVerifier as ServerCertVerifier>::verify_server_cert$', m_delegate)], max_depth=2)
-        fns = [f for f in find_fns(ex.prog, r'^crypto::<impl>::verify_server_cert$') if 'ExpectedCertVerifier' in f.decl.get(f.args[0], '')]
+        fns = [f for f in find_fns(ex.prog, r'(^|::)<impl>::verify_server_cert$') if 'ExpectedCertVerifier' in f.decl.get(f.args[0], '')]
         if len(fns) != 1:
             return ob.done([ex], 'inconclusive', 'ExpectedCertVerifier::verify_server_cert not found', paths=0)
         fn = fns[0]
@@ -109,7 +133,7 @@ def ob_expected_verifier(report, prop):
             ok_paths += 1
             ext = [e for e in r.events if e.kind == 'extract-id']
             dl = [e for e in r.events if e.kind == 'delegate']
-            if len(ext) != 1 or vname(ext[0].args[0]) != 'end_entity':
+            if len(ext) != 1 or not re.search(r'(^|[(&])end_entity\b', vname(ext[0].args[0])):       # the certificate itself or a view of its bytes (`as_ref(&end_entity)`)
                 return viol(prop, ob, [ex], 'acceptance without extracting the identity from the presented end-entity certificate', 'pin-no-extract', path_summary(r), len(res))
             q, m, _ = e2.solve(r.pc + [z3.Bool('cert_parses'), presented != expected] + ([dd == 0] if isinstance(ret, Sym) else []))
             ex.queries += 1
@@ -255,12 +279,12 @@ def ob_server_cert_verifier(report, prop):
             nm = [e for e in r.events if e.kind == 'search' and e.args[3].s == 'hit' and _over_accepted_names(ex, r.path, e.args[0])
                   and re.search(r'eq\(.*\)', str(e.args[2])) and 'server_name' in str(e.args[2]) and re.search(r'self\.\d+(\.deref)?\[#', str(e.args[2]))
                   and not z3.is_not(e.args[2])]
-            if len(pre) != 1 or vname(pre[0].args[0]) != 'end_entity' or 'prepared.discr == 0' not in pcs:
+            if len(pre) != 1 or not re.search(r'(^|[(&])end_entity\b', vname(pre[0].args[0])) or 'prepared.discr == 0' not in pcs:
                 return viol(prop, ob, [ex], 'server certificate accepted without preparing the self-signed chain from the presented end-entity certificate', 'srv-prepare', path_summary(r), len(res))
             if len(vu) != 1 or 'usage_result.discr == 0' not in pcs:
                 return viol(prop, ob, [ex], 'server certificate accepted without a successful webpki verify_for_usage', 'srv-usage', path_summary(r), len(res))
             a = vu[0].args
-            if 'SUPPORTED_SIG_ALGS' not in vrepr(a[1]) or not any('server_auth' in vrepr(x) for x in a) or vname(a[4]) != 'now':
+            if _static_name(a[1]) not in ed25519_tables()[0] or not any('server_auth' in vrepr(x) for x in a) or vname(a[4]) != 'now':
                 return viol(prop, ob, [ex], f'verify_for_usage is not run with (SUPPORTED_SIG_ALGS, the self-signed anchor, now, server_auth): {[vrepr(x)[:40] for x in a]}', 'srv-usage-args', path_summary(r), len(res))
             if 'prepared@Ok.0' not in vname(a[0]) or 'prepared@Ok.0' not in vname(a[2]):
                 return viol(prop, ob, [ex], 'verify_for_usage does not use the end-entity certificate as its own trust anchor', 'srv-anchor', path_summary(r), len(res))
@@ -309,9 +333,9 @@ def ob_client_cert_verifier(report, prop):
             pcs = ' '.join(str(z3.simplify(c)).replace('\n', ' ') for c in r.pc)
             pre = [e for e in r.events if e.kind == 'prepare']
             vu = [e for e in r.events if e.kind == 'verify-usage']
-            if len(pre) != 1 or vname(pre[0].args[0]) != 'end_entity' or 'prepared.discr == 0' not in pcs:
+            if len(pre) != 1 or not re.search(r'(^|[(&])end_entity\b', vname(pre[0].args[0])) or 'prepared.discr == 0' not in pcs:
                 return viol(prop, ob, [ex], 'client certificate accepted without preparing the self-signed chain from the presented certificate', 'cli-prepare', path_summary(r), len(res))
-            if len(vu) != 1 or 'usage_result.discr == 0' not in pcs or not any('client_auth' in vrepr(x) for x in vu[0].args) or 'SUPPORTED_SIG_ALGS' not in vrepr(vu[0].args[1]):
+            if len(vu) != 1 or 'usage_result.discr == 0' not in pcs or not any('client_auth' in vrepr(x) for x in vu[0].args) or _static_name(vu[0].args[1]) not in ed25519_tables()[0]:
                 return viol(prop, ob, [ex], 'client certificate accepted without a successful webpki verify_for_usage(Ed25519 only, client_auth)', 'cli-usage', path_summary(r), len(res))
             # some accepted network name of THIS verifier must have been checked against the verified certificate, successfully
             good = []
